@@ -165,15 +165,34 @@ theorem cover_new_insertGroup (g : List (Nat × List Kid)) (key : Nat) (u : Kid)
       obtain ⟨vs, h1, h2⟩ := ih
       exact ⟨vs, by simp only [List.mem_cons]; right; exact h1, h2⟩
 
+theorem insertGroup_nonempty (g : List (Nat × List Kid)) (key : Nat) (u : Kid) (h : ∀ k vs, (k, vs) ∈ g → vs ≠ []) :
+    ∀ k vs, (k, vs) ∈ insertGroup g key u → vs ≠ [] := by
+  induction g with
+  | nil => intro k vs hm; simp [insertGroup] at hm; rw [hm.2]; simp
+  | cons p ps ih =>
+    obtain ⟨k0, us0⟩ := p
+    intro k vs hm
+    simp only [insertGroup] at hm
+    by_cases hk : k0 = key
+    · simp only [hk, if_true, List.mem_cons] at hm
+      rcases hm with hm | hm
+      · cases hm; simp
+      · exact h k vs (by simp only [List.mem_cons]; right; exact hm)
+    · simp only [hk, if_false, List.mem_cons] at hm
+      rcases hm with hm | hm
+      · cases hm; exact h k0 us0 (by simp)
+      · exact ih (fun k' vs' hm' => h k' vs' (by simp only [List.mem_cons]; right; exact hm')) k vs hm
+
 /-- what `groupBy` guarantees -/
 structure GInv (depth : Nat) (us : List Kid) (g : List (Nat × List Kid)) : Prop where
+  nonempty : ∀ k vs, (k, vs) ∈ g → vs ≠ []
   nodup : (g.map (·.1)).Nodup
   sound : ∀ k vs, (k, vs) ∈ g → ∀ e ∈ vs, e ∈ us ∧ e.dir.getD depth 0 = k
   cover : ∀ e ∈ us, ∃ vs, (e.dir.getD depth 0, vs) ∈ g ∧ e ∈ vs
 
 theorem ginv_step (depth : Nat) (us : List Kid) (g : List (Nat × List Kid)) (u : Kid) (h : GInv depth us g) :
     GInv depth (us ++ [u]) (insertGroup g (u.dir.getD depth 0) u) := by
-  refine ⟨insertGroup_nodup g _ u h.nodup, ?_, ?_⟩
+  refine ⟨insertGroup_nonempty g _ u h.nonempty, insertGroup_nodup g _ u h.nodup, ?_, ?_⟩
   · intro k vs hm e he
     rcases mem_insertGroup g _ u k vs hm e he with ⟨h1, h2⟩ | ⟨vs0, h1, h2⟩
     · subst h1; exact ⟨by simp, h2.symm⟩
@@ -198,7 +217,7 @@ theorem ginv_foldl (depth : Nat) : ∀ (rest done : List Kid) (g : List (Nat × 
     simpa [List.append_assoc] using this
 
 theorem groupBy_inv (depth : Nat) (us : List Kid) : GInv depth us (groupBy depth us) := by
-  have := ginv_foldl depth us [] [] ⟨by simp, by simp, by simp⟩
+  have := ginv_foldl depth us [] [] ⟨by simp, by simp, by simp, by simp⟩
   simpa [groupBy] using this
 
 end Sedpack.Tree
